@@ -70,7 +70,7 @@ Proof.
     change (sp q :: map sp t) with (map sp (q :: t)). rewrite Mx, My.
     change (px (sp q)) with (px q + k * CW). change (py (sp q)) with (py q + n * CH).
     rewrite !zmin_list_shift, !zmax_list_shift. reflexivity.
-  - unfold celltext_end_cell; cbn [ctstart ctcontent]. rewrite top_left_shift. f_equal.
+  - unfold celltext_last_cell; cbn [ctstart ctcontent]. rewrite top_left_shift. f_equal.
     unfold bottom_right_most, shift_cell, shift_point, CW, CH; cbn [cx cy px py fst snd]. f_equal; lia.
 Qed.
 
